@@ -40,7 +40,11 @@ RULE = ("random timelines over 1..3 subscribers x process ids x {analogValue, an
         "subscribe / renew (permanent<->timed, confirmed<->unconfirmed, absent parameters) / cancel with "
         "lifetimes 0..120 s, value writes at 0, +-(inc-1/16), +-inc, +-(inc+1/16), returns to the old value, "
         "flag writes, increment writes, bursts without draining, clock advanced in quarter seconds across every "
-        "expiry and periodic instant; lockstep (every primitive event compared with the Lean model) and "
+        "expiry and periodic instant; plus MANY short timelines with 5..12 concurrent subscriptions (3 subscribers x 4 "
+        "process ids x 1..3 objects, lifetimes from an irregular set 2..120 s incl. sorted-decreasing sequences and "
+        "indefinite ones), cancels / renewals of arbitrary ones, housekeeping FunctionTasks (armed / stopped / re-armed) "
+        "and a recurring task in the same task heap, and a probe (change + drain + read-back) a quarter second before "
+        "and after EVERY expiry; lockstep (every primitive event compared with the Lean model) and "
         "end-to-end over a vlan. distinct = distinct model branch signatures per event "
         "(request class x detector class x list size; write x trigger/quiet/already; drain size; fired task kinds)")
 TRUSTED = ["lean/BacVerif/Model/Cov.lean is a hand transcription of service/cov.py + detect.py + the monitor call "
@@ -319,6 +323,36 @@ def canon_out(out):
     return rest + ntfs
 
 
+class Housekeeping:
+    """other long-lived timers in the same process: no-op FunctionTasks that are armed, stopped
+    and re-armed, and a no-op recurring task.  They share the TaskManager heap with the
+    subscription timers and have no COV effect (the model never sees them)."""
+
+    def __init__(self):
+        self.tasks = {}
+        self.fired = 0
+
+    def _noop(self):
+        self.fired += 1
+
+    def do(self, op, idx, arg):
+        from bacpypes.task import FunctionTask, RecurringFunctionTask
+        if op == "rec":
+            t = self.tasks.get(("rec", idx))
+            if t is None:
+                t = self.tasks[("rec", idx)] = RecurringFunctionTask(arg * 1000, self._noop)
+            t.install_task()
+            return
+        t = self.tasks.get(idx)
+        if t is None:
+            t = self.tasks[idx] = FunctionTask(self._noop)
+        if op == "arm":
+            t.install_task(delta=arg / 4.0)           # re-arming suspends first (TaskManager.install_task)
+        elif op == "stop":
+            if t.isScheduled:
+                t.suspend_task()
+
+
 class LockRig:
     """a real application between stubs; `event(ev)` executes one primitive event and
     returns the canonical reply the model driver must match"""
@@ -367,6 +401,15 @@ class LockRig:
             self.oid[(o["type"], o["id"] + 1)] = o["id"]
         self.ocfg = {o["id"]: dict(o) for o in cfg["objs"]}
         self.invoke = 0
+        self.hk = Housekeeping()
+
+    def cov_task_times(self):
+        """due times of the timers of this service (subscription expiries, periodic reports) that
+        the task manager holds — wherever they sit in its heap"""
+        from bacpypes.service.cov import Subscription
+        periodic = {id(getattr(d, "cov_period_task", None)) for d in self.app.cov_detections.values()}
+        return [when for when, _n, task in self.vt.tm.tasks
+                if isinstance(task, Subscription) or id(task) in periodic]
 
     # -- canonicalisation ------------------------------------------------
     def obj_index(self, ob):
@@ -461,9 +504,9 @@ class LockRig:
         return {"objs": objs, "dq": dq}
 
     def reply(self):
-        tasks = self.vt.tm.tasks
+        times = self.cov_task_times()
         return {"r": "ok", "out": self.take_out(), "now": us(self.vt.now),
-                "deadline": us(min(t[0] for t in tasks)) if tasks else None,
+                "deadline": us(min(times)) if times else None,
                 "digest": self.digest()}
 
     # -- primitive events ------------------------------------------------
@@ -503,9 +546,12 @@ class LockRig:
             elif op == "step":
                 vt.run(until=vt.now)                       # pending deferred work first
                 target = vt.now + ev["dt"] / US
-                tasks = vt.tm.tasks
-                nxt = min(t[0] for t in tasks) if tasks else None
-                until = target if (nxt is None or nxt > target) else max(nxt, vt.now)
+                # stop at the next instant at which a timer of this service is due (the real run
+                # loop decides by itself what it runs on the way, housekeeping timers included);
+                # a timer that is overdue because the scheduler failed to run it is not waited for
+                ahead = [t for t in self.cov_task_times() if t > vt.now]
+                nxt = min(ahead) if ahead else None
+                until = target if (nxt is None or nxt > target) else nxt
                 vt.run(until=until)
             elif op == "read":
                 return self.read()
@@ -606,6 +652,7 @@ class NetRig:
             self.subs.append(s)
         self.received = []
         self.responses = []
+        self.hk = Housekeeping()
         self.objs, self.oid = {}, {}
         for o in cfg["objs"]:
             ob = build_object(o)
@@ -984,7 +1031,135 @@ class Gen:
         yield ["read"]
 
 
+IRREGULAR = [2, 3, 5, 7, 9, 11, 13, 17, 19, 23, 26, 29, 31, 37, 41, 45, 47, 52, 53, 59, 61, 67, 71, 79, 83, 89,
+             97, 98, 100, 101, 103, 104, 107, 109, 113, 119, 120]
+
+
+def make_heap_case(rng, name):
+    """MANY concurrent subscriptions (5..12 over subscribers x process ids x objects) with
+    lifetimes from a wide irregular set (also decreasing sequences, some indefinite), cancels and
+    renewals of arbitrary ones, housekeeping timers in the same task heap, and a probe (change +
+    drain + activeCovSubscriptions read-back) a quarter second before and after EVERY expiry.
+    Short and disciplined: the oracle prescribes every notification exactly."""
+    cfg = gen_cfg(rng, nsub=3)
+    objs = {o["id"]: dict(o) for o in cfg["objs"]}
+    writable = [i for i, o in objs.items() if o["type"] in ANALOG_TYPES or o["type"] in GENERIC_TYPES]
+    target_objs = rng.sample(writable, min(len(writable), rng.choice([1, 1, 2, 3])))
+    cur = {i: o["pv"] for i, o in objs.items()}
+    acts, q = [], 0
+    deadlines = {}                                   # key -> quarter of expiry | None
+
+    def big_write(obj):
+        o = objs[obj]
+        t = o["type"]
+        if t.startswith("binary"):
+            v = 1 - cur[obj]
+        elif t.startswith("multiState"):
+            v = cur[obj] % 4 + 1
+        else:
+            v = abs(cur[obj]) + 2 * max(o["inc"], 1) + 16
+            if v > 60000:
+                v = 16
+        cur[obj] = v
+        return [obj, "pv", v]
+
+    def hk_op():
+        r = rng.random()
+        if r < 0.6:
+            acts.append(["hk", "arm", rng.randrange(4), rng.choice([3, 9, 30, 90, 170, 260, 390, 470])])
+        else:
+            acts.append(["hk", "stop", rng.randrange(4), 0])
+
+    def adv(k):
+        nonlocal q
+        if k > 0:
+            acts.append(["adv", k])
+            q += k
+
+    def subscribe(key, life):
+        acts.append(["sub", key[0], key[1], key[2], rng.choice([True, False]), life])
+        acts.append(["run"])
+        deadlines[key] = q + 4 * life if life else None
+
+    def cancel(key):
+        acts.append(["sub", key[0], key[1], key[2], None, None])
+        acts.append(["run"])
+        deadlines.pop(key, None)
+
+    def probe(objs_):
+        for obj in sorted(objs_):
+            acts.append(["w", [big_write(obj)]])
+            acts.append(["run"])
+        acts.append(["read"])
+
+    # housekeeping timers live in the same heap from the start
+    if rng.random() < 0.7:
+        acts.append(["hk", "rec", 0, rng.choice([7, 13, 60])])
+    for _ in range(rng.randrange(0, 4)):
+        hk_op()
+    # many subscriptions
+    n = rng.randrange(5, 13)
+    space = [(a, p, o) for a in range(3) for p in (1, 2, 3, 7) for o in target_objs]
+    keys = rng.sample(space, min(n, len(space)))
+    lifes = [rng.choice(IRREGULAR) for _ in keys]
+    r = rng.random()
+    if r < 0.35:
+        lifes.sort(reverse=True)
+    elif r < 0.5:
+        lifes.sort()
+    for i in range(len(lifes)):
+        if rng.random() < 0.12:
+            lifes[i] = 0
+    adv(rng.choice([0, 4, 4]))
+    for key, life in zip(keys, lifes):
+        subscribe(key, life)
+        if rng.random() < 0.75:
+            adv(rng.choice([1, 2, 4, 4, 4, 7]))
+        if rng.random() < 0.2:
+            hk_op()
+    # cancels and renewals of arbitrary ones
+    for _ in range(rng.randrange(1, 6)):
+        live = [k for k, d in deadlines.items() if d is None or d > q]
+        if not live:
+            break
+        key = rng.choice(live)
+        r = rng.random()
+        if r < 0.5:
+            cancel(key)
+        else:
+            subscribe(key, rng.choice(IRREGULAR + [0]))
+        if rng.random() < 0.5:
+            adv(rng.choice([1, 3, 4]))
+        if rng.random() < 0.3:
+            hk_op()
+    # walk across every expiry instant
+    guard = 0
+    while guard < 16:
+        guard += 1
+        pend = sorted({d for d in deadlines.values() if d is not None and d > q})
+        if not pend:
+            break
+        d = pend[0]
+        hit = {k[2] for k, x in deadlines.items() if x == d}
+        if d - 1 > q:
+            adv(d - 1 - q)
+            probe(hit)                               # a quarter second before: still subscribed
+        adv(d + 1 - q)
+        probe(hit)                                   # a quarter second after: gone
+        r = rng.random()
+        live = [k for k, x in deadlines.items() if x is None or x > q]
+        if live and r < 0.2:
+            cancel(rng.choice(live))
+        elif live and r < 0.35:
+            subscribe(rng.choice(live), rng.choice(IRREGULAR))
+        elif r < 0.5:
+            hk_op()
+    probe(set(target_objs))
+    return {"name": name, "cfg": cfg, "actions": acts}
+
+
 def is_disciplined(actions):
+    actions = [a for a in actions if a[0] != "hk"]
     for i, a in enumerate(actions):
         if a[0] in ("sub", "w", "subs"):
             ok = ("run", "adv", "sub", "subs") if a[0] != "w" else ("run", "adv")
@@ -1162,6 +1337,8 @@ def run_lockstep(ctx, case, stream="lockstep"):
                 if rep["now"] >= target or guard > 5000:
                     break
             judge.on_advance(i, now, target, outs)
+        elif kind == "hk":
+            rig.hk.do(a[1], a[2], a[3])
         elif kind == "read":
             rep = prim(i, {"op": "read"})
             if rep.get("r") == "ok":
@@ -1279,6 +1456,8 @@ def run_e2e(ctx, case, stream="e2e"):
             outs = rig.advance(target)
             judge.on_advance(i, now, target, outs)
             nout += len(outs)
+        elif kind == "hk":
+            rig.hk.do(a[1], a[2], a[3])
         elif kind == "read":
             rows, err = rig.read(0)
             judge.on_read(i, now, rows, err)
@@ -1313,6 +1492,12 @@ def shard(ctx, spec):
         if kind == "lock":
             case = make_case(rng, rng.random() < 0.6, nact, "lock-%d-%d" % (idx, j))
             run_lockstep(ctx, case)
+        elif kind == "heap":
+            case = make_heap_case(rng, "heap-%d-%d" % (idx, j))
+            run_lockstep(ctx, case, "lockstep-many")
+        elif kind == "heap-e2e":
+            case = make_heap_case(rng, "heap-e2e-%d-%d" % (idx, j))
+            run_e2e(ctx, case, "e2e-many")
         else:
             case = make_case(rng, True, nact, "e2e-%d-%d" % (idx, j))
             run_e2e(ctx, case)
@@ -1347,9 +1532,11 @@ def run(ctx):
     # corpus first (in a worker: the virtual clock must be installed before bacpypes creates its singleton)
     core.run_shards(ctx, "harness.c16", "shard_corpus", [0])
     if ctx.quick:
-        specs = [("lock", i, 14, 40) for i in range(10)] + [("e2e", i, 5, 36) for i in range(6)]
+        specs = [("lock", i, 14, 40) for i in range(10)] + [("e2e", i, 5, 36) for i in range(6)] + \
+                [("heap", i, 16, 0) for i in range(16)] + [("heap-e2e", i, 8, 0) for i in range(6)]
     else:
-        specs = [("lock", i, 150, 60) for i in range(20)] + [("e2e", i, 50, 60) for i in range(12)]
+        specs = [("lock", i, 150, 60) for i in range(20)] + [("e2e", i, 50, 60) for i in range(12)] + \
+                [("heap", i, 120, 0) for i in range(16)] + [("heap-e2e", i, 40, 0) for i in range(8)]
     core.run_shards(ctx, "harness.c16", "shard", specs)
 
 
